@@ -75,6 +75,11 @@ def handleStream : List Sexp → Option String
     match clientSeq cols cs with
     | .error e => pure ("(err " ++ stErr e ++ ")")
     | .ok rows => pure (toString (list [atom "ok", stRows rows]))
+  | [atom "st-split", d] => do
+    let d ← asBytes? d
+    match splitData d with
+    | none => pure "none"
+    | some x => pure (toString (list [atom "some", atom (bytesToHex x)]))
   | [atom "st-dechunk", d] => do
     let d ← asBytes? d
     match stream2bytearray d with
